@@ -6,6 +6,7 @@ Local Open Scope N_scope.
 (* honest host: one input file served in chunks, one output that accepts everything *)
 Record hst := { rem : list byte; out : list byte (* reversed *) }.
 Section Honest.
+Context {A : Type}.
 Variables (bufsize : N) (rule : eofrule).
 Hypothesis bufsize_pos : 0 < bufsize.
 
@@ -27,7 +28,7 @@ Proof. intro Hn. destruct n as [|n]; [lia|]. exists (firstn n l). cbn. split; [r
 
 (* READ_IF_NEEDED: after it, either the buffer is non-empty and nothing else changed, or the
    function returns with the rule's status *)
-Lemma sim_fill i b h (k : sres (byte * bst) -> prog (sres unit * bst)) : R i b h -> bbuf b = [] ->
+Lemma sim_fill i b h (k : sres (byte * bst) -> prog (sres A * bst)) : R i b h -> bbuf b = [] ->
   match irest i with
   | x :: r => exists b' h', exec h (b_fill bufsize rule b k) = exec h' (k (SVal (x, b'))) /\
                             R {| irest := r; iout := iout i |} b' h'
@@ -48,7 +49,7 @@ Proof.
     intro Hb. specialize (He Hb). discriminate.
 Qed.
 
-Lemma sim_next i b h (k : sres (byte * bst) -> prog (sres unit * bst)) : R i b h ->
+Lemma sim_next i b h (k : sres (byte * bst) -> prog (sres A * bst)) : R i b h ->
   match ideal_next rule i with
   | SVal (x, i') => exists b' h', exec h (b_next bufsize rule b k) = exec h' (k (SVal (x, b'))) /\ R i' b' h'
   | SStop e => exists h', exec h (b_next bufsize rule b k) = exec h' (k (SStop e)) /\ iout i = out h'
@@ -72,7 +73,7 @@ Proof.
     cbn [Nat.sub rev iout]. rewrite <- app_assoc. reflexivity.
 Qed.
 
-Lemma sim_copyin : forall fuel todo i b h acc (k : sres (list byte * bst) -> prog (sres unit * bst)),
+Lemma sim_copyin : forall fuel todo i b h acc (k : sres (list byte * bst) -> prog (sres A * bst)),
   R i b h -> (2 * todo < fuel + (if bbuf b then 0 else 1))%nat ->
   match ideal_take rule todo i acc with
   | SVal (l, i') => exists b' h', exec h (b_copyin bufsize rule fuel todo b acc k) = exec h' (k (SVal (l, b'))) /\ R i' b' h'
@@ -110,18 +111,27 @@ Proof.
 Qed.
 
 (* ===== the generic theorem: any decoder written over the source agrees under both interpretations ===== *)
-Theorem buffered_refines_ideal : forall (p : sprog unit) i b h, R i b h ->
+Theorem buffered_refines_ideal : forall (p : sprog A) i b h, R i b h ->
   let '(r1, i') := ideal rule p i in
   let '((r2, _), h') := exec h (buffered bufsize rule p b) in
   r1 = r2 /\ iout i' = out h'.
 Proof.
   induction p as [a|c k IH]; intros i b h HR.
   - cbn. split; [reflexivity|apply HR].
-  - destruct c as [|n|d]; cbn [ideal buffered].
+  - destruct c as [| |n|d]; cbn [ideal buffered].
     + match goal with |- context [b_next _ _ _ ?K] => pose proof (sim_next i b h K HR) as S end.
       destruct (ideal_next rule i) as [[x i']|e].
       * destruct S as (b' & h' & E & R'). rewrite E. apply IH. exact R'.
       * destruct S as (h' & E & Ho). rewrite E. cbn [exec]. split; [reflexivity|exact Ho].
+    + (* SAvail *)
+      destruct (bbuf b) as [|x l] eqn:Eb.
+      * match goal with |- context [b_fill _ _ _ ?K] => pose proof (sim_fill i b h K HR Eb) as F end.
+        destruct (irest i) as [|y r] eqn:Ei.
+        -- destruct F as (h' & E & Ho). rewrite E. cbn [exec]. split; [reflexivity|exact Ho].
+        -- destruct F as (b' & h' & E & R'). rewrite E. apply IH.
+           destruct R' as (Hr & Ho & He & Hs). unfold R; cbn in *. rewrite Ei, Hr. repeat split; auto.
+      * assert (Ei : exists y r, irest i = y :: r) by (destruct HR as (Hr & _); rewrite Hr, Eb; cbn [app]; eauto).
+        destruct Ei as (y & r & Ei). rewrite Ei. apply IH. exact HR.
     + match goal with |- context [b_copyin _ _ _ _ _ _ ?K] => pose proof (sim_copyin (S (2 * n)) n i b h [] K HR) as S end.
       destruct (ideal_take rule n i []) as [[l i']|e].
       * destruct S as (b' & h' & E & R'); [destruct (bbuf b); lia|]. rewrite E. apply IH. exact R'.
